@@ -103,7 +103,12 @@ Definition invert (d : doc) : invert_result :=
   | _, _ => InvertRefused
   end.
 
-(* ---- RemoveIncludedTaxes ---- *)
+(* ---- RemoveIncludedTaxes ----
+   Line level (removeLineIncludedTaxes, removeSubLinesIncludedTaxes, removeLineDiscounts/ChargesIncludedTaxes):
+   `Amount.Upscale(2).Remove(pct)` = strip.  Document level (Discount/Charge.removeIncludedTaxes): since the
+   repair recorded in findings/C17.json (C17-rit-not-a-fixpoint) `Amount.Remove(pct)` at the precision the amount
+   is presented with = ddc_strip; ddc_strip_shipped is the earlier behaviour (two extra decimals, which the
+   presentation then rounds away, so the next calculation starts from another amount). ---- *)
 Definition strip (a : amount) (p : amount) : amount := remove (upscale a default_tax_removal_accuracy) p.
 
 Definition ldc_strip (p : amount) (d : ldc) : ldc := mkLdc (strip (ld_amount d) p) (ld_pct d) (ld_base d) (ld_rate d) (ld_qty d).
@@ -120,35 +125,68 @@ Definition line_strip (pit : bytes) (l : line) : line :=
                end
   | None => l
   end.
-Definition ddc_strip (pit : bytes) (d : ddc) : ddc :=
+(* Discount.removeIncludedTaxes / Charge.removeIncludedTaxes; `rm` = how the tax is taken out of the amount *)
+Definition ddc_strip_with (rm : amount -> amount -> amount) (pit : bytes) (d : ddc) : ddc :=
   match get_combo pit (dd_taxes d) with
   | Some cb => match cb_pct cb with
-               | Some p => mkDdc (strip (dd_amount d) p) (dd_pct d) (dd_base d) (dd_taxes d)
+               | Some p => mkDdc (rm (dd_amount d) p) (dd_pct d) (dd_base d) (dd_taxes d)
                | None => d
                end
   | None => d
   end.
+Definition ddc_strip : bytes -> ddc -> ddc := ddc_strip_with remove.           (* m2.Amount.Remove(pct) *)
+Definition ddc_strip_shipped : bytes -> ddc -> ddc := ddc_strip_with strip.    (* m2.Amount.Upscale(2).Remove(pct) *)
+
+(* the document RemoveIncludedTaxes calculates: d1 is the calculated document read back (as_input d) *)
+Definition strip_doc_with (ds : bytes -> ddc -> ddc) (pit : bytes) (d1 : doc) : doc :=
+  mkDoc (d_c d1) (d_currency_rule d1) [] (d_cur d1) (map (line_strip pit) (d_lines d1))
+        (map (ds pit) (d_discounts d1)) (map (ds pit) (d_charges d1)) (d_rates d1)
+        (d_advances d1) (d_dues d1) None.
+Definition strip_doc : bytes -> doc -> doc := strip_doc_with ddc_strip.
+
+(* t.Rounding = &rnd on the calculated document *)
+Definition with_rounding (d : doc) (r : option amount) : doc :=
+  mkDoc (d_c d) (d_currency_rule d) (d_pit d) (d_cur d) (d_lines d) (d_discounts d) (d_charges d)
+        (d_rates d) (d_advances d) (d_dues d) r.
 
 Inductive rit_result := RitRefused | RitDone (t : totals).
 
-Definition remove_included_taxes (d : doc) : rit_result :=
+Definition remove_included_taxes_with (ds : bytes -> ddc -> ddc) (d : doc) : rit_result :=
   match d_pit d with
   | [] => match calculate d with Totals t => RitDone t | _ => RitRefused end
   | pit =>
     match calculate d, as_input d with
     | Totals t0, Some d1 =>
-      let d2 := mkDoc (d_c d1) (d_currency_rule d1) [] (d_cur d1) (map (line_strip pit) (d_lines d1))
-                      (map (ddc_strip pit) (d_discounts d1)) (map (ddc_strip pit) (d_charges d1)) (d_rates d1)
-                      (d_advances d1) (d_dues d1) None in
+      let d2 := strip_doc_with ds pit d1 in
       match calculate d2, as_input d2 with
       | Totals t1, Some d3 =>
         if equals (t_twt t0) (t_twt t1) then RitDone t1
         else
-          let d4 := mkDoc (d_c d3) (d_currency_rule d3) [] (d_cur d3) (d_lines d3) (d_discounts d3) (d_charges d3)
-                          (d_rates d3) (d_advances d3) (d_dues d3) (Some (sub (t_twt t0) (t_twt t1))) in
-          match calculate d4 with Totals t2 => RitDone t2 | _ => RitRefused end
+          match calculate (with_rounding d3 (Some (sub (t_twt t0) (t_twt t1)))) with Totals t2 => RitDone t2 | _ => RitRefused end
       | _, _ => RitRefused
       end
     | _, _ => RitRefused
     end
   end.
+Definition remove_included_taxes : doc -> rit_result := remove_included_taxes_with ddc_strip.
+Definition remove_included_taxes_shipped : doc -> rit_result := remove_included_taxes_with ddc_strip_shipped.
+
+(* the document RemoveIncludedTaxes leaves behind, as the next reader sees it (None: it refused) *)
+Definition rit_document_with (ds : bytes -> ddc -> ddc) (d : doc) : option doc :=
+  match d_pit d with
+  | [] => as_input d
+  | pit =>
+    match calculate d, as_input d with
+    | Totals t0, Some d1 =>
+      let d2 := strip_doc_with ds pit d1 in
+      match calculate d2, as_input d2 with
+      | Totals t1, Some d3 =>
+        if equals (t_twt t0) (t_twt t1) then Some d3
+        else as_input (with_rounding d3 (Some (sub (t_twt t0) (t_twt t1))))
+      | _, _ => None
+      end
+    | _, _ => None
+    end
+  end.
+Definition rit_document : doc -> option doc := rit_document_with ddc_strip.
+Definition rit_document_shipped : doc -> option doc := rit_document_with ddc_strip_shipped.
